@@ -52,13 +52,15 @@ type FuncSpec struct {
 }
 
 type PredSpec struct {
-	Name   string
-	Params []Param
-	Ret    string // "bool" for preds
-	Body   Expr
-	Text   string
-	File   string
-	Line   int
+	Name      string
+	Params    []Param
+	Ret       string // "bool" for preds
+	Rec       bool   // the body calls the function itself
+	Decreases Expr   // measure of a recursive spec function
+	Body      Expr
+	Text      string
+	File      string
+	Line      int
 }
 
 type ContractFile struct {
@@ -266,6 +268,15 @@ func parsePred(s string, isPred bool) (*PredSpec, error) {
 		return nil, fmt.Errorf("pred %s has no body", name)
 	}
 	ret := strings.TrimSpace(rest[:eq])
+	var decreases Expr
+	if i := strings.Index(ret, "decreases "); i >= 0 {
+		d, err := ParseExpr(strings.TrimSpace(ret[i+len("decreases "):]))
+		if err != nil {
+			return nil, err
+		}
+		decreases = d
+		ret = strings.TrimSpace(ret[:i])
+	}
 	if isPred || ret == "" {
 		ret = "bool"
 	}
@@ -274,7 +285,8 @@ func parsePred(s string, isPred bool) (*PredSpec, error) {
 	if err != nil {
 		return nil, err
 	}
-	ps := &PredSpec{Name: name, Ret: ret, Body: body, Text: bodyText}
+	ps := &PredSpec{Name: name, Ret: ret, Body: body, Text: bodyText, Decreases: decreases}
+	ps.Rec = regexp.MustCompile(`(^|[^A-Za-z0-9_])` + regexp.QuoteMeta(name) + `\(`).MatchString(bodyText)
 	plist := strings.TrimSpace(s[lp+1 : rp])
 	if plist != "" {
 		var pending []string
